@@ -42,12 +42,12 @@ checks = {
     text="seeded search over (archive, schedule, fault plan): every file-system call of the real extraction/locking code is a scheduling point checked against the destination's own tree before it takes effect; the destination is verified complete at the step it becomes visible; sampling, not proof"),
   note="trusted: simulated flock (inode-keyed, dropped on crash), simulated HTTP, real kernel file semantics under /dev/shm, GNU tar as one atomic step; power loss not modelled; for .tar.xz only confinement (not rejection-with-error) is asserted because GNU tar neutralises hostile names instead of failing."),
 "C06": dict(
-  technique="deterministic simulation: the real map runtime (map.go, alg.go, hash64.go, z_map.go) with type descriptors computed by the real ssa/abi package, every random draw of the map code (hash seed, iteration start bucket/offset, NaN hashing) owned and recorded by the simulator, steps of up to three live range loops interleaved with mutations, a buggified degenerate hasher; reference model = association list checked operation by operation, iterator oracles from the Go spec; second phase: a generated map interpreter compiled by the real llgo (at -O0) for 53 concrete map types, C rand() behind an LD_PRELOAD seam seeded per history, same model over its printed events; third phase: a compiled program in which goroutines convert equal values to interface types for the first time concurrently and use them as map keys, under the LD_PRELOAD deterministic pthread scheduler (seeded schedules at lock granularity)",
+  technique="deterministic simulation: the real map runtime (map.go, alg.go, hash64.go, z_map.go) with type descriptors computed by the real ssa/abi package, every random draw of the map code (hash seed, iteration start bucket/offset, NaN hashing) owned and recorded by the simulator, steps of up to three live range loops interleaved with mutations, a buggified degenerate hasher; reference model = association list checked operation by operation, iterator oracles from the Go spec; second phase: a generated map interpreter compiled by the real llgo (at -O0) for 54 concrete map types, C rand() behind an LD_PRELOAD seam seeded per history, same model over its printed events; third phase: a compiled program in which goroutines convert equal values to interface types for the first time concurrently and use them as map keys, under the LD_PRELOAD deterministic pthread scheduler (seeded schedules at lock granularity)",
   level=dict(category="exploration", design_ref="DESIGN.md §4.3",
     text="seeded search over operation histories (5-6000 ops) x key/elem type catalogue x RNG-seam values x iterator interleavings against a trivial reference map; lookups, len, iteration completeness/no-duplicate/no-deleted, nil-map and unhashable-key panics, bounded progress of every operation"),
   note="weakest fit of the claimed properties (no faults, single thread): what is simulated is the randomness the code draws and the interleaving of range loops with mutations. Layer A scope: run-time library + descriptor computation (ssa/abi), with the assembly of descriptors into LLVM constants (ssa/abitype.go) re-implemented in the harness; the compiler lowering of map operations and the emitted descriptors are exercised by layer B (compiled interpreter, ~80 histories/s), whose generator stays outside the territory of the listed findings. Three unrepaired inherited defects (C06-K1..K3) are matched structurally in layer A, one (C06-K4, keys that are arrays of structs ending in a zero-size field) by key kind in layer B."),
 "C13": dict(
-  technique="deterministic simulation with fault injection at process level: the real llgo binary (rebuilt from the working tree, cache code behind a counting fault seam supplied by go build -overlay) driven through generated histories of edits / rebuilds / cache clears / builds killed or failed at cache operation k (optionally with a torn write) / 2-3 concurrent llgo processes on the one cache directory, parked at every cache operation and released one at a time by the run's PRNG (with kills, torn writes and disk errors ordered at those gates), with file mtimes stamped from a simulated clock (normal, stalled, backwards, coarse); oracle = a reference model of what the generated multi-package program must print",
+  technique="deterministic simulation with fault injection at process level: the real llgo binary (rebuilt from the working tree, cache code behind a counting fault seam supplied by go build -overlay) driven through generated histories of edits / rebuilds / cache clears / builds killed or failed at cache operation k (optionally with a torn write) / 2-3 concurrent llgo processes on the one cache directory (possibly under different tag settings or optimisation levels), parked at every cache operation and released one at a time by the run's PRNG or kept level on the package list (with kills, torn writes and disk errors ordered at those gates) / a power cut after a build (files renamed without having been synced lose their data), with file mtimes stamped from a simulated clock (normal, stalled, backwards, coarse); oracle = a reference model of what the generated multi-package program must print",
   level=dict(category="exploration", design_ref="DESIGN.md §4.5",
     text="seeded search over edit/rebuild/crash histories x clock-fault modes on generated 2-6 package modules (Go source same/different size, LLGoFiles C files, embedded files, build tags, ABI mode, optimisation level, LLGO_TRACE, transitive dependencies), including steps in which 2-3 builder processes share the cache; after every successful build the program's output must equal the model's, also after crashes and disk errors at arbitrary cache operations; roughly 700 histories per hour, so a clean batch is thin evidence"),
   note="claims the never-stale and crash-consistency clauses; byte-reproducibility of IR is sampled only (a repro step compares the .ll files of two compiler processes; their difference, Go's per-process map-iteration seed, cannot be put behind a seam, so this part is observation, not simulation, and its replay re-executes the comparison); -X overrides have no command-line path at this commit; of the environment variables only LLGO_TRACE changes program behaviour and is a history step, the optimisation level is observable through the C side files (__OPTIMIZE__: -O2 / -O0 / -Oz are history steps), the debug variables are not observable by this oracle. Concurrent builders are interleaved at cache-operation granularity only (not inside one write), and no edit happens while a build runs. LLVM 14 + stub libunwind/libuv instead of LLVM 19; embed worlds only in the thorough tier (cold std build takes minutes)."),
